@@ -7,14 +7,14 @@ HOOK_COMMITS = ["102a258", "f921dc1"]
 CHECKS = {
  "C13": dict(level="model_checking", engine="E1-sequences",
    technique="exhaustive enumeration of all operation sequences (depth 3/4) over the read-only surface on the real SQLite extension + store-level invariant on the fake object store",
-   text="Every sequence of read-only-surface operations (queries, write attempts, transactions, refresh, version, changes, vacuum, a concurrent real writer) up to depth 3 (quick) / 4 (thorough) is executed on the real extension for every base bucket state (0..3 unmerged heads, with/without delete markers, entries_per_node 2 and 4096); the fake store flags any PUT/DELETE by the read-only handle. Exhaustive within those bounds, which cover every code path guarded by the readonly flag.",
+   text="Every sequence of read-only-surface operations (queries, write attempts, transactions, refresh, version, changes, vacuum, a concurrent real writer) up to depth 3 (quick) / 4 (thorough) is executed on the real extension for every base bucket state (0..3 unmerged heads with/without delete markers, two heads with identical content, ancestor+descendant both under root/current; entries_per_node 2 and 4096); the fake store flags any PUT/DELETE by the read-only handle. Exhaustive within those bounds, which cover every code path guarded by the readonly flag.",
    note="Trusted: fake store models S3 (atomic objects, strong consistency); SQLite/go-sqlite3 as linked; sequential clients only (concurrency is C03/C19).",
    ref="§5 C13"),
 }
 
 CHECKS["C06"] = dict(level="model_checking", engine="E1-bfs",
    technique="explicit-state breadth-first search to closure over a finite key/value domain on the real extension, differential oracle against a native WITHOUT ROWID table in the same SQLite connection",
-   text="All reachable states of (s3db table, native mirror) over a finite key domain (4-9 keys incl. a mixed-storage-class set) and value domain are enumerated to closure for every configuration (entries_per_node 2/3/4/4096 x node cache 0/100); every mutation statement is applied from every state and outcome class, affected-row count and full contents are compared; at every state a battery of ~400 SELECTs (all key comparison operators, two-sided/contradictory ranges, IN, BETWEEN, NULL operands, ORDER BY asc/desc/non-key, LIMIT, aggregates, joins) is compared on the live connection and on a fresh connection that re-opens the table from the bucket.",
+   text="All reachable states of (s3db table, native mirror) over a finite key domain (4-9 keys incl. a mixed-storage-class set) and value domain are enumerated to closure for every configuration (entries_per_node 2/3/4/4096 x node cache 0/100, plus NOT NULL column, key declared as last column, and all statements at one constant write_time); every mutation statement is applied from every state and outcome class, affected-row count and full contents are compared; at every state a battery of ~400 SELECTs (all key comparison operators, two-sided/contradictory ranges, IN, BETWEEN, NULL operands, ORDER BY asc/desc/non-key, LIMIT, aggregates, joins) is compared on the live connection and on a fresh connection that re-opens the table from the bucket.",
    note="Trusted: SQLite's native table as reference; strictly increasing logical write times; typeless columns. Values outside the finite domains are not covered.",
    ref="§5 C06")
 
@@ -32,7 +32,7 @@ CHECKS["C07"] = dict(level="exploration", engine="E4-domain",
 
 CHECKS["C08"] = dict(level="exploration", engine="E4-domain",
    technique="exhaustive enumeration of a boundary value alphabet x position x rows-per-object, each observed at 8 life-cycle stages on the real extension against a native table",
-   text="Every value of the boundary alphabet (all storage classes incl. int64 limits, +-0, +-inf, values beyond 2^53, empty/non-ASCII/embedded-NUL/invalid-UTF-8 text, empty/1 KiB/70 KiB blobs and text, expression-produced values) is written in key and non-key position and read back with typeof() and bit-exact rendering inside the transaction, after commit, from a fresh connection, after a merge with a second writer (unrelated row and an older conflicting insert that must lose), after vacuum and from a fresh connection after vacuum, for entries_per_node 2[,3],4096; unmentioned columns must read NULL; a refused value must be an error and leave the table as before. Oracle: a native table given the same statements.",
+   text="Every value of the boundary alphabet (all storage classes incl. int64 limits, +-0, +-inf, values beyond 2^53, empty/non-ASCII/embedded-NUL/invalid-UTF-8 text, empty/1 KiB/70 KiB blobs and text, expression-produced values) is written in key and non-key position and read back with typeof() and bit-exact rendering inside the transaction, after commit, from a fresh connection, after a later UPDATE of another column of the row (row re-timed), after a merge with two other writers (a concurrent later UPDATE of another column, an unrelated row, an older conflicting insert that must lose), after vacuum and from a fresh connection after vacuum, for entries_per_node 2[,3],4096; unmentioned columns must read NULL; a refused value must be an error and leave the table as before. Oracle: a native table given the same statements.",
    note="Trusted: SQLite native table as reference; go-sqlite3 driver value mapping is the same on both sides. Values outside the alphabet are not covered.",
    ref="§5 C08")
 
@@ -55,13 +55,13 @@ CHECKS["C02"] = dict(level="model_checking", engine="E1-histories",
 
 CHECKS["C05"] = dict(level="model_checking", engine="E1-sequences",
    technique="exhaustive enumeration of all statement sequences (depth 4/5) over a transaction alphabet incl. an injected failing commit, on one SQLite connection holding the s3db table and a native mirror; oracles on own view, fresh reader, request log and tree dumps",
-   text="Every sequence of length 1..4 (quick) / 1..5 (thorough) over {BEGIN, COMMIT, ROLLBACK, INSERT (new, duplicate, NULL key), UPDATE (point, range), DELETE, arm-a-failing-version-PUT} is run for entries_per_node 2/4096 and write_time unset / explicitly set per statement. After the last step: the connection's rows equal the native mirror's (own writes visible, restored by explicit rollback, failing statement or failing commit); a fresh read-only opener sees exactly the last committed rows (none or all of a transaction); no version object is written before COMMIT or by a rolled-back transaction, exactly one per changing commit and none otherwise; the tree after any rollback equals the pre-transaction tree dump field by field; with write_time unset everything a transaction wrote carries one time (the logical clock advances on every read, so per-statement clock reads would show).",
+   text="Every sequence of length 1..4 (quick) / 1..5 (thorough) over {BEGIN, COMMIT, ROLLBACK, INSERT (new, duplicate, NULL key), UPDATE (point, range), DELETE, arm-a-failing-version-PUT, INSERT into a second s3db table of the same connection} is run for entries_per_node 2/4096 and write_time unset / explicitly set per statement. After the last step: the connection's rows equal the native mirror's (own writes visible, restored by explicit rollback, failing statement or failing commit); a fresh read-only opener sees exactly the last committed rows (none or all of a transaction); no version object is written before COMMIT or by a rolled-back transaction, exactly one per changing commit and none otherwise; the tree after any rollback equals the pre-transaction tree dump field by field; with write_time unset everything a transaction wrote, in both tables, carries one time (the logical clock advances on every read, so per-statement clock reads would show).",
    note="Trusted: SQLite's own transaction handling of the native mirror; injected commit failure = version PUT fails before taking effect. Failing multi-row statements inside explicit transactions are out of scope (needs xSavepoint; property is silent).",
    ref="§5 C05")
 
 CHECKS["C15"] = dict(level="model_checking", engine="E1-histories",
    technique="exhaustive enumeration: (a) every history of the C01 space x every byte-identical retry placement, differential oracle (with vs without the retry); (b) out-of-time-order histories vs the reference conflict rule; (c) every sequence over the s3db_conn surface vs a model of effective write time / deadline, with stored timestamps read by the tree walker",
-   text="(a) For every history of up to 3 (quick) / 4 (thorough) statements by up to 3 writers (all kinds, all write-time orders, two base states) and every (statement i, later position, writer, with or without a refresh of that writer first) a re-execution of statement i with the same text, values and write_time is inserted; the rows a fresh reader sees must equal those of the history without it. (b) Histories whose execution order contradicts the write-time order must end in the state the documented rule gives. (c) Every sequence of length 1..4 (quick) / 1..5 (thorough) over {set write_time t1/t2, clear it with NULL or '', set deadline past/future, clear it, BEGIN, COMMIT, ROLLBACK, INSERT, read s3db_conn} is checked against a model: read-back equals what was set, the stored row time equals the write_time in effect (exactly) or the clock / transaction time when unset, a past deadline fails exactly the autocommit INSERTs and changing COMMITs issued while it is set, clearing restores the defaults.",
+   text="(a) For every history of up to 3 (quick) / 4 (thorough) statements by up to 3 writers (all kinds, all write-time orders, two base states) and every (statement i, later position, writer, with or without a refresh of that writer first) a re-execution of statement i with the same text, values and write_time is inserted; the rows a fresh reader sees must equal those of the history without it. (b) Histories whose execution order contradicts the write-time order must end in the state the documented rule gives. (c) Every sequence of length 1..5 (quick) / 1..6 (thorough) over {set write_time t1/t2, clear it with NULL or '', set deadline past/future, clear it, BEGIN, COMMIT, ROLLBACK, INSERT, read s3db_conn} is checked against a model: read-back equals what was set, the stored row time equals the write_time in effect (exactly) or the clock / transaction time when unset, a past deadline fails exactly the autocommit INSERTs and changing COMMITs issued while it is set, clearing restores the defaults.",
    note="Trusted: logical clock hooks (H2/H5/H6) stand in for time.Now(); deadlines only in the far past/future so no real timer fires. After the connection itself manipulated write_time inside a transaction the model accepts either the transaction time or the statement time (the property leaves it open).",
    ref="§5 C15")
 
@@ -78,19 +78,19 @@ CHECKS["C12"] = dict(level="model_checking", engine="E1-sequences",
 
 CHECKS["C17"] = dict(level="model_checking", engine="E1-sequences",
    technique="exhaustive enumeration of all event sequences over three kv handles (all time-rank assignments, all version-list permutations at every re-open, every RemoveTombstones cutoff) on the real kv package; reference model = one map per handle and per committed version",
-   text="Every sequence of length 1..5 (quick; callback modes 1..4) / 1..6 (thorough) over {Set, Tombstone, Commit, re-Open on 3 handles; RemoveTombstones with every cutoff rank; Clone+Set} with canonical handle order and every assignment of distinct time ranks to the timed events (so decreasing times occur), in three modes (last-write-wins, conflict callback, custom max-merge), plus a reduced alphabet with times in execution order to depth 7/9 (long version chains), plus legacy gob root objects, is executed against the real kv.DB on the fake store. After each sequence every handle's Get / IsTombstoned / Size / cursor scan, Diff between every ordered pair of committed versions, and TraceHistory (starts at the current value, only committed values, strictly decreasing times) must agree with the model; the conflict callback must fire exactly for keys whose live values differ in the two trees merged.",
+   text="Every sequence of length 1..5 (quick; callback modes 1..4) / 1..6 (thorough) over {Set, Tombstone, Commit, re-Open on 3 handles; RemoveTombstones with every cutoff rank; Clone+Set} with canonical handle order and every assignment of distinct time ranks to the timed events (so decreasing times occur), in three modes (last-write-wins, conflict callback, custom max-merge), plus a reduced alphabet with times in execution order to depth 7/9 (long version chains), plus legacy gob root objects, is executed against the real kv.DB on the fake store. After each sequence every handle's Get / IsTombstoned / Size / cursor scan, Diff between every ordered pair of committed versions, and TraceHistory (starts at the current value, only committed values, strictly decreasing times) must agree with the model, tombstoned entries must carry the earliest merged tombstone time; the conflict callback must fire exactly for keys whose live values differ in the two trees merged.",
    note="Trusted: model = the documented rule (latest time wins, tombstone beats values, earliest tombstone kept, RemoveTombstones drops tombstones strictly older than the cutoff). Equal times are excluded (order dependent by design).",
    ref="§5 C17")
 
 CHECKS["C18"] = dict(level="exploration", engine="E4-domain",
    technique="exhaustive enumeration over plaintext lengths x passphrases x every single-bit flip / truncation / extension / wrong passphrase of the ciphertext (current and legacy format), plus end-to-end runs through kv.Open on the fake store",
-   text="For every plaintext length 0..130 (quick) / 0..300 (thorough), crossing the 32/64-byte block boundaries of the legacy box, and three passphrases: decrypt(encrypt(p)) = p; equal plaintext gives equal ciphertext; EVERY single-bit flip, EVERY truncation, three 1-byte extensions and both other passphrases are rejected with an error; ciphertext produced in the earlier hand-rolled format (hook H7 exposes the repo's own legacy seal) decrypts to the original and every bit flip of it is rejected. End to end (1, 5, 40 entries; branch factor 4): no 4-byte window of any key or value occurs in any stored node object, a second handle reads everything back, adding one entry re-writes only the path to it and never an existing name (store immutability invariant), a different passphrase reads nothing, and with every stored node modified no entry is returned.",
+   text="For every plaintext length 0..130 (quick) / 0..300 (thorough), crossing the 32/64-byte block boundaries of the legacy box, and three passphrases: decrypt(encrypt(p)) = p; equal plaintext gives equal ciphertext; EVERY single-bit flip, EVERY truncation, three 1-byte extensions and both other passphrases are rejected with an error; ciphertext produced in the earlier hand-rolled format (hook H7 exposes the repo's own legacy seal) decrypts to the original and every bit flip of it is rejected. End to end (1, 5, 40 entries; branch factor 4): no 4-byte window of any key or value occurs in any stored node object, a second handle reads everything back, adding one entry re-writes only the path to it and never an existing name (store immutability invariant), a different passphrase reads nothing, with every stored node modified no entry is returned, and with every single request of the encrypted commit failed once (before or after taking effect) no stored object contains plaintext and an acknowledged commit reads back.",
    note="Decides the observable statements of the property (no plaintext bytes, authenticated, deterministic, legacy readable), not cryptographic strength. Lengths above the bound and multi-bit corruptions are not enumerated.",
    ref="§5 C18")
 
 CHECKS["C04"] = dict(level="fault_enumeration", engine="E3-crash-cuts",
    technique="exhaustive enumeration of every down-closed subset (crash cut) of the recorded mutation log of a transaction / merging open / refresh / vacuum, each crash state recovered by the real code under every permutation of the heads",
-   text="14 scenarios (empty table, one version, two and three unmerged heads, single- and multi-level trees, histories with deleted rows; transaction = autocommit INSERT, multi-statement BEGIN..COMMIT, merging read-write open, s3db_refresh that merges, writer based on neither head, s3db_vacuum with three cutoffs). The transaction runs once against a recording handle; every down-closed subset of its mutation log under the partial order the code imposes (concurrent node PUTs, vacuum's DELETE sets and the retire chains of different parents unordered, everything else in program order; up to 1027 cuts per scenario) is applied to the pre-state and recovered: read-only opens under every permutation of the heads must succeed, agree, and show exactly the rows before or exactly the rows after (after, if the transaction was acknowledged); a read-write recovery must agree, accept a write, and be readable afterwards; thorough cuts the recovery's own commits again (second crash).",
+   text="15 scenarios (empty table, one version, two and three unmerged heads, single- and multi-level trees, histories with deleted rows; transaction = autocommit INSERT, multi-statement BEGIN..COMMIT, a transaction with an older write_time than the row's entry, merging read-write open, s3db_refresh that merges, writer based on neither head, s3db_vacuum with three cutoffs). The transaction runs once against a recording handle; every down-closed subset of its mutation log under the partial order the code imposes (concurrent node PUTs, vacuum's DELETE sets and the retire chains of different parents unordered, everything else in program order; up to 1027 cuts per scenario) is applied to the pre-state and recovered: read-only opens under every permutation of the heads must succeed, agree, and show exactly the rows before or exactly the rows after (after, if the transaction was acknowledged); a read-write recovery must agree, accept a write, and be readable afterwards; thorough cuts the recovery's own commits again (second crash).",
    note="Trusted: S3 semantics (atomic objects, an in-flight request landed or not); groups larger than 12 unordered requests are covered by prefixes, single omissions and singletons (monotonicity argument in engine/crash.go) and reported as exhaustive:false.",
    ref="§5 C04")
 
@@ -102,7 +102,7 @@ CHECKS["C14"] = dict(level="fault_enumeration", engine="E3-faults",
 
 CHECKS["C09"] = dict(level="model_checking", engine="E1-sequences",
    technique="exhaustive enumeration of all event sequences (depth 3/4) x every vacuum cutoff relative to every event time (-1 s / exact / +1 s) on a logical clock; before/after differential oracles, recorded versions re-opened, independent walker over every version object present",
-   text="Every sequence of length 1..3 (quick) / 1..4 (thorough) over 13 events (INSERT/UPDATE/DELETE on two keys by w1, reconnect, refresh, a stale second writer and its refresh, a merging open, earlier vacuums) for entries_per_node 2 and 4096 is followed by s3db_vacuum on w1 with every cutoff of the form event time -1 s / exact / +1 s. Afterwards: the vacuuming connection's rows (full scan, point lookups, descending range) are unchanged and it can still INSERT/UPDATE/DELETE; a fresh reader sees what a fresh reader saw just before the vacuum (a key may differ only if its delete marker is older than the cutoff); every recorded version created at/after the cutoff or still under root/current re-opens by name with its recorded rows; the walker finds no version object, current or retired, that reaches a deleted object; repeating the vacuum keeps the rows. Crash cuts inside vacuum are enumerated by C04.",
+   text="Every sequence of length 1..3 (quick) / 1..4 (thorough) over 14 events (INSERT/UPDATE/DELETE on two keys by w1, a DELETE with an older write_time, reconnect, refresh, a stale second writer and its refresh, a merging open, earlier vacuums) for entries_per_node 2 and 4096 and node cache 0/100 is followed by s3db_vacuum on w1 with every cutoff of the form event time -1 s / exact / +1 s. Afterwards: the vacuuming connection's rows (full scan, point lookups, descending range) are unchanged and it can still INSERT/UPDATE/DELETE; a fresh reader sees what a fresh reader saw just before the vacuum (a key may differ only if its delete marker is older than the cutoff); every recorded version created at/after the cutoff or still under root/current re-opens by name with its recorded rows; the walker finds no version object, current or retired, that reaches a deleted object; repeating the vacuum keeps the rows. Crash cuts inside vacuum are enumerated by C04.",
    note="Trusted: logical clock (H2/H5/H6) gives every version its creation time; walker decodes with generated protobuf types only. Unmerged heads of other writers count as retained (they are under root/current).",
    ref="§5 C09")
 CHECKS["C10"] = dict(level="model_checking", engine="E1-sequences",
